@@ -340,8 +340,14 @@ struct Collected {
     violations: Vec<(u64, Violation)>,
     samples: Vec<Value>,
     nviol_total: u64,
+    /// occurrences per signature (every one is counted; only the first
+    /// MAX_WITNESSES_PER_SIG witnesses of a signature are kept, so that a frequent
+    /// known finding cannot crowd out a rare new one)
+    sig_counts: BTreeMap<String, u64>,
     digests: BTreeMap<u64, u64>,
 }
+
+const MAX_WITNESSES_PER_SIG: u64 = 200;
 
 enum WorkerEnd {
     Finished,
@@ -429,7 +435,13 @@ fn parse_worker_output(
                 if let Ok(v) = serde_json::from_str::<Value>(rest) {
                     let mut c = col.lock().unwrap();
                     c.nviol_total += 1;
-                    if c.violations.len() < 2000 {
+                    let sig = v["sig"].as_str().unwrap_or("").to_string();
+                    let n = {
+                        let e = c.sig_counts.entry(sig).or_insert(0);
+                        *e += 1;
+                        *e
+                    };
+                    if n <= MAX_WITNESSES_PER_SIG {
                         c.violations.push((
                             v["idx"].as_u64().unwrap_or(0),
                             Violation {
@@ -847,7 +859,7 @@ pub fn supervisor_main(mon: &'static Monitor, tier: Tier) -> i32 {
                 mon.id,
                 what,
                 sig,
-                vs.len()
+                col.sig_counts.get(sig).copied().unwrap_or(0).max(vs.len() as u64)
             ));
             continue;
         }
@@ -868,7 +880,7 @@ pub fn supervisor_main(mon: &'static Monitor, tier: Tier) -> i32 {
             "signature": sig,
             "what": best.1.what,
             "witness": best.1.witness,
-            "occurrences": vs.len(),
+            "occurrences": col.sig_counts.get(sig).copied().unwrap_or(0).max(vs.len() as u64),
         });
         let _ = std::fs::write(&path, serde_json::to_string_pretty(&body).unwrap());
         if new_sigs <= 25 {
